@@ -42,6 +42,12 @@ Continue == /\ phase = "restarted" /\ r.m.step < NSTEPS - 1
 Next == AddKill \/ Go \/ Call \/ Restart \/ Continue
 Spec == Init /\ [][Next]_vars
 
+\* liveness (checked without any state constraint, under weak fairness of the next-state relation): every run ends after its last
+\* step, and by then exactly the scheduled records have been written (C07: one record for each output time in [start, stop))
+FairSpec == Spec /\ WF_vars(Next)
+RunEnded == phase # "plan" /\ m.step = NSTEPS - 1 /\ m.pc = "timer"
+Terminates == <>RunEnded
+AllRecordsWritten == [](RunEnded => Len(m.hist) = (NSTEPS + sc.ops - 1) \div sc.ops)
 \* scenario emission for replay into the real model (GEN configuration): release groups, kills, output period
 SetToSeq(S) == LET RECURSIVE F(_)
                    F(T) == IF T = {} THEN <<>> ELSE LET x == CHOOSE x \in T : TRUE IN <<x>> \o F(T \ {x})
